@@ -7,6 +7,8 @@ functions - decided almost completely).
            mismatch returning Err; both readers call it (with ?) before any datum decoding and hand over exactly the
            remainder (shared with C11/HEADER)
   PAIR     marker constant identical on both sides and equal to the spec's C3 01; fingerprint is 8 bytes
+  shared   C08's canonical-form writer and CRC rules, C07's resolution rules: the eight bytes compared are the CRC-64-AVRO of
+           the canonical form of the schema the text denotes
 The fingerprint value is C08's, datum bytes C01/C02, slice/reader equivalence C11.
 """
 import re
